@@ -36,7 +36,7 @@ def run(ctx):
         "evaluations": st["cases"], "distinct_nontrivial": st["calls"],
         "rule": "a case is one concurrent Go program: the 24 of the catalogue (2-3 goroutines joined by a wait group or a condition variable before the result is read) and generated ones "
                 "(1-2 workers updating one or two shared variables with commuting additions inside critical sections of one mutex, one publishing through a pointer before its Done, "
-                "the main goroutine possibly taking part, joined by a wait group; drawn from the seed); it is run natively %d times "
+                "the main goroutine possibly taking part, joined by a wait group; or 2-3 workers each writing a cell of their own without any lock, read after the join; drawn from the seed); it is run natively %d times "
                 "and the set of results collected; goose's output is explored exhaustively: all interleavings of the threads at every step that reads or writes the state "
                 "(a thread waiting on a condition variable re-acquires only after another thread made progress; threads that only wait for each other are reported as a "
                 "deadlock); compared: Go's results are model outcomes, no deadlock/stuck/non-terminating schedule, unique Go result implies the same unique model outcome" % reps,
